@@ -175,7 +175,11 @@ namespace
     static void judge(verif::Ctx& c, const std::string& key, const std::string& stage, const GT_& gt, Unwrap_&& unwrap,
       const SpaceType& sf, const SpaceType& sc, int degree, const String& cub, bool trunc, bool shrink, bool matrix_free)
     {
-      const Csr P(unwrap(gt._transfer.get_mat_prol())), R(unwrap(gt._transfer.get_mat_rest()));
+      // the accessors of the global wrapper refer to the matrices of the local transfer it owns; its temporary has the coarse size
+      c.check(&gt.get_mat_prol() == &gt._transfer.get_mat_prol() && &gt.get_mat_rest() == &gt._transfer.get_mat_rest() && &gt.get_mat_trunc() == &gt._transfer.get_mat_trunc()
+        && &const_cast<GT_&>(gt).local() == &gt._transfer && const_cast<GT_&>(gt).get_vec_temp().size() == gt.get_mat_rest().rows(),
+        "Global::Transfer accessors; " + stage + "; " + key, "get_mat_prol/rest/trunc/local do not refer to the owned local transfer, or the temporary vector has the wrong size after compile()");
+      const Csr P(unwrap(gt.get_mat_prol())), R(unwrap(gt.get_mat_rest()));
       // the control route equals the kernel route bitwise
       MatrixType kp, kpu, kt;
       kernel_route(sf, sc, cub, shrink, kp, kpu, kt);
